@@ -1232,6 +1232,9 @@ def judge_round(J, tgt, f, kg, rng, spec, asg, fixed):
                   mech=deep_container_mech(c, tol, deep))
             continue
         except Exception as e:
+            if not keyable_without_rounding(tgt, case, c):
+                J.note('c12_unkeyable_anyway')      # (e.g. a method's instance that this serializer cannot pickle)
+                continue
             J.bad('C12', 'rounding-made-call-fail',
                   'tol=%r deep=%r: call %s raised %s: %s' % (tol, deep, srepr(c), type(e).__name__, str(e)[:150]),
                   mech=deep_container_mech(c, tol, deep))
